@@ -182,6 +182,8 @@ def main():
             inconclusive.append({'condition': name, 'reason': 'engine: ' + res['crash'][:300]})
             continue
         tw, ck = res['twin'], res['check']
+        bounds[name].update(timeout_s=ob['timeout'], wall_s=ck.get('wall_s'), paths=ck['paths'], smt_queries=ck['smt_queries'],
+                            solver_s=ck['solver_s'])
         paths += ck['paths'] + tw['paths']
         queries += ck['smt_queries']
         solver_s += ck['solver_s']
